@@ -7,18 +7,20 @@ the Go example in docs/internals/coordinates.html.markdown; the theorems below t
 between the code, the documentation and the model breaks the build.
 
 What is proved and what is not:
-* formula (any arithmetic), dimension error, docs = code on the seconds value: FULL strength;
+* formula (any arithmetic), dimension error, docs = code (seconds value and conversion): FULL strength;
+* symmetry: FULL strength and EXACT (`C21_symm`: d(a,b) = d(b,a) for every pair of coordinates, every arithmetic with
+  a commutative `+` and exact negation; `C21_symm_rounding`: in particular every rounding model).  Before the repair
+  4a3f085 the code associated the four scalars differently in the two directions: `C21_symm_old_shape_1ns`
+  (within 1 ns away from the guard's threshold) and `C21_symm_old_shape_counterexample` (2 s apart at it);
+* "up to floating-point rounding": `C21_accuracy_rounding`, within 1 ns of the exact formula over an abstract
+  rounding model, explicit magnitude and margin hypotheses (necessary: the formula is discontinuous at the guard);
+  the rounding of the Euclidean part itself stays validated-only (monitor, exact rational reference);
 * non-negativity: PARTIAL — holds unless the int64 conversion overflows (`C21_nonneg_partial`); with the property's
-  own quantifier ("any adjustments") the overflow is reachable: `C21_nonneg_counterexample` (recorded finding);
-* symmetry: exact in exact arithmetic (`C21_symm_exact`), the Euclidean part bit-exact under rounding
-  (`C21_symm_euclid`); the 1 ns bound under rounding is NOT proved (`C21_symm_rounding_partial` is the exact-arithmetic
-  statement) — it is validated by the correspondence check against an exact rational evaluation, for
-  adjustments up to 10^6 s; beyond that it is false for doubles (recorded finding, found by the monitor);
-* the documented example converts with `time.Duration(rtt) * time.Second`, i.e. truncates to whole seconds:
-  `C21_docs_conversion_eq_code` (the documentation was repaired; `C21_docs_conversion_old_counterexample` is the regression witness).
+  own quantifier ("any adjustments") the overflow is reachable: `C21_nonneg_counterexample` (recorded finding).
 -/
 import SerfProofs.Lemmas.Coord
 import SerfProofs.Lemmas.ERatLaws
+import SerfProofs.Lemmas.Rounding
 import SerfModel.Gen.CoordFormula
 namespace SerfProofs.C21
 open SerfModel SerfModel.Coord FloatLike
@@ -31,8 +33,8 @@ variable {F : Type} [FloatLike F]
 /-- the documented formula, spelled out: Euclidean norm of the difference plus both heights, plus both adjustments
 when that is positive -/
 def documented (a b : Coordinate F) : F :=
-  let d := add (add (sqrt ((diffv a.vec b.vec).foldl (fun s x => add s (mul x x)) zero)) a.height) b.height
-  let adj := add (add d a.adjustment) b.adjustment
+  let d := add (sqrt ((diffv a.vec b.vec).foldl (fun s x => add s (mul x x)) zero)) (add a.height b.height)
+  let adj := add d (add a.adjustment b.adjustment)
   if lt zero adj then adj else d
 
 /-- **C21 (formula).** For coordinates of equal dimension `DistanceTo` is the documented formula, converted with
@@ -76,9 +78,9 @@ theorem C21_dim_error (a b : Coordinate F) (h : a.vec.length ≠ b.vec.length) :
 theorem nn_distSeconds [LawfulFloatLike F] (a b : Coordinate F)
     (ha : le (zero : F) a.height = true) (hb : le (zero : F) b.height = true) : NN (distSeconds a b) := by
   have hraw : NN (rawDistanceTo a b) :=
-    LawfulFloatLike.nn_add _ _ (LawfulFloatLike.nn_add _ _ (LawfulFloatLike.nn_sqrt _) (Or.inr ha)) (Or.inr hb)
+    LawfulFloatLike.nn_add _ _ (LawfulFloatLike.nn_sqrt _) (LawfulFloatLike.nn_add _ _ (Or.inr ha) (Or.inr hb))
   simp only [distSeconds]
-  by_cases h : gt (add (add (rawDistanceTo a b) a.adjustment) b.adjustment) (zero : F) = true
+  by_cases h : gt (add (rawDistanceTo a b) (add a.adjustment b.adjustment)) (zero : F) = true
   · rw [if_pos h]; exact Or.inr (LawfulFloatLike.le_of_lt _ _ h)
   · rw [if_neg h]; exact hraw
 
@@ -105,8 +107,7 @@ theorem C21_nonneg_counterexample :
 
 /-! ## 4. symmetry -/
 
-theorem foldl_sumsq_diff_comm [LawfulFloatLike F] (va vb : List F) (init : F)
-    (ha : va.all finite = true) (hb : vb.all finite = true) :
+theorem foldl_sumsq_diff_comm [CommLaws F] (va vb : List F) (init : F) :
     (diffv va vb).foldl (fun s x => add s (mul x x)) init = (diffv vb va).foldl (fun s x => add s (mul x x)) init := by
   induction va generalizing vb init with
   | nil => cases vb <;> simp [diffv]
@@ -114,44 +115,149 @@ theorem foldl_sumsq_diff_comm [LawfulFloatLike F] (va vb : List F) (init : F)
     cases vb with
     | nil => simp [diffv]
     | cons y ys =>
-      simp only [List.all_cons, Bool.and_eq_true] at ha hb
       simp only [diffv, List.zipWith_cons_cons, List.foldl_cons]
-      rw [LawfulFloatLike.sub_sq_comm x y ha.1 hb.1]
-      exact ih ys _ ha.2 hb.2
+      rw [CommLaws.sub_sq_comm x y]
+      exact ih ys _
 
-/-- **C21 (symmetry, Euclidean part, bit-exact).** Under rounding the Euclidean norm of the difference is exactly
-symmetric, because negation is exact. -/
-theorem C21_symm_euclid [LawfulFloatLike F] (a b : Coordinate F) (ha : isValid a = true) (hb : isValid b = true) :
+/-- **C21 (symmetry, Euclidean part).** Under rounding the Euclidean norm of the difference is exactly symmetric,
+because negation is exact. -/
+theorem C21_symm_euclid [CommLaws F] (a b : Coordinate F) :
     magnitude (diffv a.vec b.vec) = magnitude (diffv b.vec a.vec) := by
-  simp only [isValid, Bool.and_eq_true] at ha hb
   simp only [magnitude, sumsq]
-  rw [foldl_sumsq_diff_comm a.vec b.vec zero ha.1 hb.1]
+  rw [foldl_sumsq_diff_comm a.vec b.vec zero]
 
-theorem erat_add_comm (x y : ERat) : ERat.add x y = ERat.add y x := by
-  cases x <;> cases y <;> simp [ERat.add, Rat.add_comm]
-
-theorem erat_add_assoc (x y z : ERat) : ERat.add (ERat.add x y) z = ERat.add x (ERat.add y z) := by
-  cases x <;> cases y <;> cases z <;> simp [ERat.add, Rat.add_assoc]
-
-/-- **C21 (symmetry, exact arithmetic).** In exact arithmetic the estimate is exactly symmetric. -/
-theorem C21_symm_exact (a b : Coordinate ERat) (ha : isValid a = true) (hb : isValid b = true) :
-    distSeconds a b = distSeconds b a := by
-  have hm := C21_symm_euclid a b ha hb
+/-- **C21 (symmetry), FULL strength.** `DistanceTo` does not depend on which coordinate is the receiver: for EVERY
+pair of coordinates (any dimensions, any values) and every arithmetic in which `+` is commutative and negation
+is exact — in particular IEEE-754 doubles — d(a,b) = d(b,a) EXACTLY (0 ns, not 1 ns).  This is what the repair
+4a3f085 (heights and adjustments summed first) bought: before it, the two directions associated the four scalars
+differently, see `C21_symm_old_shape_counterexample`. -/
+theorem C21_symm [CommLaws F] (a b : Coordinate F) : distanceTo a b = distanceTo b a := by
+  have hm := C21_symm_euclid a b
   have hraw : rawDistanceTo a b = rawDistanceTo b a := by
-    simp only [rawDistanceTo, hm, ERat.fl_add]
-    rw [erat_add_assoc, erat_add_assoc, erat_add_comm a.height b.height]
-  simp only [distSeconds, hraw, ERat.fl_add]
-  rw [erat_add_assoc (rawDistanceTo b a) a.adjustment, erat_add_assoc (rawDistanceTo b a) b.adjustment,
-    erat_add_comm a.adjustment b.adjustment]
+    simp only [rawDistanceTo, hm, CommLaws.add_comm a.height b.height]
+  have hs : distSeconds a b = distSeconds b a := by
+    simp only [distSeconds, hraw, CommLaws.add_comm a.adjustment b.adjustment]
+  have hc : isCompatibleWith a b = isCompatibleWith b a := by
+    simp only [isCompatibleWith]
+    exact Bool.eq_iff_iff.2 (by simp only [beq_iff_eq]; exact eq_comm)
+  simp only [distanceTo, distanceNs, hs, hc]
 
-/- FULL statement (not proved): for doubles, |distanceNs a b - distanceNs b a| ≤ 1 for valid coordinates with
-   components and heights up to 10^4 s.  Validated only, by the C21 monitor on the real code's outputs (and false
-   for adjustments beyond ~10^7 s, where one ulp of the sum exceeds 1 ns: recorded finding). -/
+/-- the seconds value is symmetric as well -/
+theorem C21_symm_seconds [CommLaws F] (a b : Coordinate F) : distSeconds a b = distSeconds b a := by
+  have hm := C21_symm_euclid a b
+  have hraw : rawDistanceTo a b = rawDistanceTo b a := by
+    simp only [rawDistanceTo, hm, CommLaws.add_comm a.height b.height]
+  simp only [distSeconds, hraw, CommLaws.add_comm a.adjustment b.adjustment]
 
-/-- **C21 (symmetry within 1 ns), partial:** proved for exact arithmetic only (difference 0). -/
-theorem C21_symm_rounding_partial (a b : Coordinate ERat) (ha : isValid a = true) (hb : isValid b = true) :
-    distanceNs a b = distanceNs b a := by
-  simp only [distanceNs, C21_symm_exact a b ha hb]
+/-! ## 4b. rounding: an abstract model of floating-point arithmetic
+
+`Rnd fl` (Lemmas/Rounding.lean) is exact rational arithmetic followed by a rounding function `fl` on every result; the
+model code runs under it unchanged.  Assumed about `fl`: `RoundingLaw fl u`, i.e. |fl x - x| ≤ u·|x| and
+fl(-x) = -fl x (the standard model; doubles: u = 2^-53), and that 10^9 is representable. -/
+
+open SerfModel.Rounding
+
+/-- **C21 (symmetry) under every rounding model.** `Rnd fl` satisfies `CommLaws` as soon as `fl` is odd, so the
+estimate is exactly symmetric under any such rounding — the laws of `C21_symm` are not special to exact arithmetic. -/
+theorem C21_symm_rounding {fl : Rat → Rat} {u : Rat} (h : RoundingLaw fl u) (a b : Coordinate (Rnd fl)) :
+    distanceTo a b = distanceTo b a :=
+  @C21_symm (Rnd fl) _ (commLaws_of_odd h.odd) a b
+
+theorem nanos_R {fl : Rat → Rat} (h9 : fl 1000000000 = 1000000000) : (nanos : Rnd fl) = R fl 1000000000 := by
+  show (⟨.fin (fl ((1000000000 : Int) : Rat))⟩ : Rnd fl) = ⟨.fin 1000000000⟩
+  have : ((1000000000 : Int) : Rat) = 1000000000 := by decide +kernel
+  rw [this, h9]
+
+/-- **C21 (equals the documented formula up to rounding): within 1 ns**, for realistic magnitudes, away from the
+guard's threshold.  Hypotheses, all explicit:
+* `RoundingLaw fl u` with `8u ≤ 1`, 10^9 representable;
+* magnitudes: the computed Euclidean part `m` and both heights in [0, K], both adjustments in [-K, K], K ≤ 10^8 s,
+  and `100·u·K·10^9 ≤ 1` (doubles: K up to 9·10^4 s; the property's 10^4 s components give m ≤ 5.7·10^4 s);
+* margin: the exact adjusted distance is farther than 32·u·K from 0.  WITHOUT the margin the claim is false for
+  every rounding arithmetic, because the formula itself is discontinuous at 0 (the guard): an exact value of
+  +10^-18 yields 0 ns while a rounded value of 0.0 yields the unadjusted distance.
+Then the result differs by at most 1 ns from the exact formula (over the computed Euclidean part) truncated to ns.
+What is NOT covered: the rounding error of the Euclidean part itself (n multiplications, n additions, one square
+root); the missing lemma is `|fl-magnitude(v) - ‖v‖| ≤ (n/2+1)·u·‖v‖`, which needs a real square root that core
+Lean does not have.  That part stays validated by the monitor's exact-rational reference. -/
+theorem C21_accuracy_rounding {fl : Rat → Rat} {u K : Rat} (h : RoundingLaw fl u) (hu : 8 * u ≤ 1)
+    (h9 : fl 1000000000 = 1000000000) (hK : 0 ≤ K) (hK8 : K ≤ 100000000)
+    (hsmall : 100 * (u * K * 1000000000) ≤ 1)
+    (a b : Coordinate (Rnd fl)) (m ha hb ja jb : Rat)
+    (hm : magnitude (diffv a.vec b.vec) = R fl m)
+    (hha : a.height = R fl ha) (hhb : b.height = R fl hb)
+    (hja : a.adjustment = R fl ja) (hjb : b.adjustment = R fl jb)
+    (hmag : Magnitudes K m ha hb ja jb) (hmar : Margin u K m ha hb ja jb) :
+    distanceNs a b - (exactFormula m ha hb ja jb * 1000000000).floor ≤ 1 ∧
+    (exactFormula m ha hb ja jb * 1000000000).floor - distanceNs a b ≤ 1 := by
+  have hc := distRNew_close h hu hK hmag hmar
+  have hd : distanceNs a b = ERat.toInt64 (.fin (fl (distRNew fl m ha hb ja jb * 1000000000))) := by
+    simp only [distanceNs, distSeconds_R h a b m ha hb ja jb hm hha hhb hja hjb, nanos_R h9, mul_R]
+    rfl
+  rw [hd]
+  exact ns_accurate h hu hK hK8 hsmall hc.1 hc.2.1 hc.2.2
+
+/-- **C21 (non-negative) for realistic magnitudes, FULL strength over the rounding model.**  With the computed
+Euclidean part and both heights in [0, K], both adjustments in [-K, K] and K ≤ 10^8 s, the estimate is non-negative
+(no margin hypothesis, no overflow hypothesis: the bound on the magnitudes excludes the int64 overflow of
+`C21_nonneg_counterexample`, which needs adjustments of about 10^10 s). -/
+theorem C21_nonneg_rounding {fl : Rat → Rat} {u K : Rat} (h : RoundingLaw fl u) (hu : 8 * u ≤ 1)
+    (h9 : fl 1000000000 = 1000000000) (hK : 0 ≤ K) (hK8 : K ≤ 100000000)
+    (a b : Coordinate (Rnd fl)) (m ha hb ja jb : Rat)
+    (hm : magnitude (diffv a.vec b.vec) = R fl m)
+    (hha : a.height = R fl ha) (hhb : b.height = R fl hb)
+    (hja : a.adjustment = R fl ja) (hjb : b.adjustment = R fl jb)
+    (hmag : Magnitudes K m ha hb ja jb) : 0 ≤ distanceNs a b := by
+  have hd : distanceNs a b = ERat.toInt64 (.fin (fl (distRNew fl m ha hb ja jb * 1000000000))) := by
+    simp only [distanceNs, distSeconds_R h a b m ha hb ja jb hm hha hhb hja hjb, nanos_R h9, mul_R]
+    rfl
+  rw [hd]
+  exact ns_nonneg h hu hK hK8 (distRNew_range h hu hK hmag)
+
+/-- **The former shape** (before the repair 4a3f085) under the same rounding model: away from the threshold the two
+directions were within 1 ns of each other … -/
+theorem C21_symm_old_shape_1ns {fl : Rat → Rat} {u K : Rat} (h : RoundingLaw fl u) (hu : 8 * u ≤ 1)
+    (h9 : fl 1000000000 = 1000000000) (hK : 0 ≤ K) (hK8 : K ≤ 100000000)
+    (hsmall : 100 * (u * K * 1000000000) ≤ 1) (m ha hb ja jb : Rat)
+    (hmag : Magnitudes K m ha hb ja jb) (hmar : Margin u K m ha hb ja jb) :
+    nsOf fl (distROld fl m ha hb ja jb) - nsOf fl (distROld fl m hb ha jb ja) ≤ 1 ∧
+    nsOf fl (distROld fl m hb ha jb ja) - nsOf fl (distROld fl m ha hb ja jb) ≤ 1 := by
+  have hc := distROld_close h hu hK hmag hmar
+  simp only [nsOf, h9]
+  exact ns_close h hu hK hK8 hsmall hc.1 hc.2.1 hc.2.2
+
+/-- … and AT the threshold they were not: a rounding function with relative error below 10^-16 (`fl0`: the identity
+except at ±3/2) for which the former shape gives d(a,b) = 0 ns and d(b,a) = 2 s for the same two coordinates
+(same position, heights 1 s, adjustments -1/2 s and -3/2 s), while the current shape gives 2 s both ways.  The
+float64 instance of this defect, found by the monitor on the real code, is corpus/C21/guard-boundary-asymmetry.case
+(d(a,b) = 100 ms, d(b,a) = 0 before the repair). -/
+theorem C21_symm_old_shape_counterexample :
+    RoundingLaw fl0 (1 / 10000000000000000) ∧
+    nsOf fl0 (distROld fl0 0 1 1 (-(1 / 2)) (-(3 / 2))) = 0 ∧
+    nsOf fl0 (distROld fl0 0 1 1 (-(3 / 2)) (-(1 / 2))) = 2000000000 ∧
+    nsOf fl0 (distRNew fl0 0 1 1 (-(1 / 2)) (-(3 / 2))) = 2000000000 ∧
+    nsOf fl0 (distRNew fl0 0 1 1 (-(3 / 2)) (-(1 / 2))) = 2000000000 :=
+  ⟨fl0_law, by decide +kernel, by decide +kernel, by decide +kernel, by decide +kernel⟩
+
+/-- non-vacuity of the rounding hypotheses: exact arithmetic (`fl = id`, u = 0) satisfies them, with K = 10^4 -/
+example : RoundingLaw (fun x => x) 0 ∧ (8 : Rat) * 0 ≤ 1 ∧ (fun x : Rat => x) 1000000000 = 1000000000 ∧
+    100 * ((0 : Rat) * 10000 * 1000000000) ≤ 1 ∧ Magnitudes 10000 5 1 2 (-1) 3 ∧ Margin 0 10000 5 1 2 (-1) 3 := by
+  refine ⟨⟨by decide +kernel, fun x => ?_, fun x => rfl⟩, by decide +kernel, rfl, by decide +kernel,
+    ⟨by decide +kernel, by decide +kernel, by decide +kernel, by decide +kernel, by decide +kernel⟩,
+    Or.inl (by decide +kernel)⟩
+  rw [Rat.sub_self, Rat.abs_zero, Rat.zero_mul]; exact Rat.le_refl
+
+/-- non-vacuity of the coordinate-level hypotheses of `C21_accuracy_rounding` / `C21_nonneg_rounding`: the 3-4-5
+pair under `fl = id`: Euclidean part 5, heights 1 and 2, adjustments -1 and 3 -/
+example :
+    let a : Coordinate (Rnd (fun x => x)) := ⟨[R _ 3, R _ 0], R _ 1, R _ (-1), R _ 1⟩
+    let b : Coordinate (Rnd (fun x => x)) := ⟨[R _ 0, R _ 4], R _ 1, R _ 3, R _ 2⟩
+    magnitude (diffv a.vec b.vec) = R _ 5 ∧ distanceNs a b = 10000000000 ∧ distanceNs b a = 10000000000 := by
+  decide +kernel
+
+/-- and a genuinely rounding one: `fl0` with u = 10^-16 and K = 10^4 -/
+example : RoundingLaw fl0 (1 / 10000000000000000) ∧ fl0 1000000000 = 1000000000 ∧
+    100 * ((1 / 10000000000000000 : Rat) * 10000 * 1000000000) ≤ 1 := ⟨fl0_law, by decide +kernel, by decide +kernel⟩
 
 /-! ## 5. the documented example's conversion -/
 
